@@ -54,6 +54,17 @@ def fixed_corpus():
         structs = [zed, mid, alpha] if i else [zed, alpha]
         pkg = {"name": "g%03d" % i, "structs": structs, "extra_decls": [], "features": {}, "select": sel}
         res.append(pkg)
+    # a type-level directive on a GROUPED declaration holds for every struct of the group, not only for the first
+    for i, d in enumerate(["// shoot: getter", "// shoot: setter"]):
+        first = _sd("First", [ctorgen.fdecl(["a"], ctorgen.T_basic("int")), ctorgen.fdecl(["b"], ctorgen.T_basic("string"), ["//shoot: set"])])
+        second = _sd("Second", [ctorgen.fdecl(["c"], ctorgen.T_basic("bool")),
+                                ctorgen.fdecl(["d"], ctorgen.T_basic("int"), ["//shoot: get;set"])] +
+                     ([ctorgen.fdecl([], ctorgen.T_named("", "First"))] if i else []))
+        third = _sd("Third", [ctorgen.fdecl(["e"], ctorgen.T_basic("uint8"), ["//shoot: get"]), ctorgen.fdecl(["f"], ctorgen.T_basic("string"))])
+        for sd in (first, second, third):
+            sd["doc"] = ctorgen.doc_text([d])
+        res.append({"name": "g%03d" % (2 + i), "structs": [first, second, third], "extra_decls": [], "features": {},
+                    "select": "list", "groups": [{"names": ["First", "Second", "Third"], "comment": [d]}]})
     return res
 
 
@@ -606,7 +617,8 @@ def main(run):
                  "fields with a directive (fatal); `shoot new -getset -type=<all or all but one, declaration or random "
                  "order>`, 20%% of these run twice; in ~1 of 4 packages the tool picks the types itself (`-file=<source>` or "
                  "`-type=*` with the //go:generate line in the source) on a directory without generated files -- the first two "
-                 "packages are the fixed corpus Zed/Alpha and Zed/Mike/Alpha (embedded type declared first, sorting last), the "
+                 "packages are the fixed corpus Zed/Alpha and Zed/Mike/Alpha (embedded type declared first, sorting last), two "
+                 "more fixed ones carry a type-level getter / setter directive on a GROUPED declaration of three structs, the "
                  "next four are generated ones of that shape (generator.tool_selected_with_embedded_sorting_after_embedder).  Per selected struct one static case (methods declared on T, method "
                  "set of *T, <T>Getter/<T>Setter: embedded / explicit / complete method set / implemented by *T) and one "
                  "executed run per (entry point NewT(sentinels) | zero value, setter of *T's method set): all leaves before "
